@@ -101,7 +101,7 @@ def run(tier):
         em.phase_offset = rng.choice([dists.TopHat(-pmax, pmax), dists.Gaussian(0, 0.1, min_value=-pmax, max_value=pmax), dists.Constant(0.0)])
         n = rng.randint(2, 6)
         c = lw.Unitary(lw.random_unitary(n, seed=rng.randint(0, 10 ** 6)))
-        sd = rng.randint(0, 10 ** 6)
+        sd = (0, 1, 2 ** 32 - 1)[k] if k < 3 else rng.randint(0, 10 ** 6)      # ends of the seed range first ("all seeds": 0 is a seed)
         chk.count(key="em%d" % k)
         script = {"error_model": str(em), "n": n, "seed": sd}
         try:
@@ -152,7 +152,7 @@ def run(tier):
             cfg[attr] = rng.choice(makers[attr])
             setattr(em, attr, cfg[attr]())
             hist.append((attr, type(getattr(em, attr)).__name__))
-            sd = rng.randint(0, 10 ** 6)
+            sd = 0 if step == 0 else rng.randint(0, 10 ** 6)
             chk.count(key="emhist%d/%d" % (h, step))
             script = {"history": hist, "seed": sd}
             try:
